@@ -292,7 +292,13 @@ Proof.
     - cbn [app gen_list gen_one]. rewrite He. cbn [bind]. rewrite Hw. reflexivity.
     - inversion H1 as [|? ns ? nss' Ha Hr]; subst. cbn [app gen_list]. rewrite (Ha gen s0). cbn [bind fst snd].
       rewrite (IH s0 nss' Hr). reflexivity. }
-  rewrite X. reflexivity.
+  assert (Y : gen_list_site w gen (code_gen_site w 299) s (asts1 ++ AIncludeIps path e fi :: asts2) = None).
+  { clear Hi X. revert nss1 H1. generalize s. induction asts1 as [|a asts1 IH]; intros s0 nss1 H1.
+    - cbn [app gen_list_site gen_one]. rewrite He. cbn [bind]. rewrite Hw. cbn [bind]. reflexivity.
+    - inversion H1 as [|? ns ? nss' Ha Hr]; subst. cbn [app gen_list_site]. rewrite (Ha gen s0). cbn [fst].
+      apply (IH s0 nss' Hr). }
+  change (code_gen_site w cg_depth) with (gen_list_site w (code_gen_fuel w 299) (code_gen_site w 299)).
+  fold gen. rewrite X, Y. reflexivity.
 Qed.
 
 Print Assumptions nips_insert.
